@@ -86,7 +86,7 @@ func (e *memoEntry) matches(s *State) bool {
 		if !ok {
 			return false
 		}
-		if sameValue(cur, r.v) || cur.Equal(r.v) {
+		if FastEqual(cur, r.v) {
 			continue
 		}
 		return false // (a structurally different but TLA-equal value only costs a real execution)
@@ -174,7 +174,7 @@ func (sys *System) applyMemo(e *memoEntry, s *State, p int) []Attempt {
 			if n.lhash == nil {
 				n.lhash = make([][16]byte, len(s.lhash))
 				copy(n.lhash, s.lhash)
-				n.gkey = s.gkey
+				n.gkey, n.gnames = s.gkey, s.gnames
 			}
 			n.Locals[p] = ma.locals
 			n.lhash[p] = ma.lhash
